@@ -14,6 +14,7 @@ below therefore also says that *all other lists are untouched*.
 import Golib.Proof.C13DRefine
 import Golib.Proof.C13SRefine
 import Golib.Proof.C13SFamily
+import Golib.Proof.C13Misuse
 
 namespace Golib.C13
 
@@ -458,6 +459,49 @@ example : (∃ (s : DSt) (A : Nat → List Nat), GInv s A ∧ 0 < s.nl ∧ 1 < s
   constructor
   · obtain ⟨s1, _, g1, _, n1, _⟩ := pushBack_spec (l := 0) 7 (c13_zero_value 2) (by decide)
     exact ⟨s1, _, g1, by rw [n1]; decide, by rw [n1]; decide, by simp [upd]⟩
+  · obtain ⟨F1, _, h1⟩ := fapply_refines (k := 0) (fabs_zero 2) (.pushBack 7) (by decide)
+    exact ⟨F1, _, h1, by decide, by decide, by decide⟩
+
+/-- **Outside the contract — what the code does, machine-checked** (two-or-more-list pointer models).
+Guarded calls given a foreign or stale node (`Remove`, `Move*`, `InsertBefore/After`,
+`InsertNodeBefore/After` with such a mark) are documented no-ops: that is `c13_dlist_refines`.
+Re-inserting a node returned by a removing call is inside the contract (`Detached`,
+`c13_dlist_refines` / `c13_slist_family_refines` clause 4).  What remains is misuse, where the
+code silently corrupts its lists exactly like hand-relinking a `container/list` element would:
+
+1. `DList`: every node-inserting form given a node that is STILL LINKED in the receiver or in
+   another list of the family relinks it without unlinking (`e.list = l`, `l.len++`, the old
+   neighbours keep pointing at `e`): afterwards NO assignment of sequences satisfies `GInv`.
+2. `DList.Init()` on a non-empty list (its nodes stay owned by a list of `len` 0): same.
+3. `SList.PushFrontNode` / `PushBackNode` (hence `InsertNodeAt` with `i ≤ 0` / `i ≥ Len()`) given a
+   node still linked in the same or another list of the family: the node is reachable twice (cycle,
+   or two lists sharing it): NO assignment satisfies `FAbs`.  (`InsertNodeAt` in the middle with a
+   linked node: exercised by the `misuse` stream only.)
+
+So none of the theorems above applies after such a call — the harness exercises these calls in
+the stream `misuse` against the Lean model only (both run the same pointer writes). -/
+theorem c13_misuse_breaks :
+    (∀ (s : DSt) (A : Nat → List Nat) (l k e : Nat), GInv s A → l < s.nl → k < s.nl → e ∈ A k →
+      (∀ s', s.pushFrontNode l e = some s' → ¬ ∃ A', GInv s' A') ∧
+      (∀ s', s.pushBackNode l e = some s' → ¬ ∃ A', GInv s' A') ∧
+      (∀ mark s', mark ∈ A l → s.insertNodeBefore l e mark = some s' → ¬ ∃ A', GInv s' A') ∧
+      (∀ mark s', mark ∈ A l → s.insertNodeAfter l e mark = some s' → ¬ ∃ A', GInv s' A')) ∧
+    (∀ (s : DSt) (A : Nat → List Nat) (l : Nat), GInv s A → l < s.nl → A l ≠ [] →
+      ¬ ∃ A', GInv (s.init l) A') ∧
+    (∀ (F : SFam) (a : FA) (l k e : Nat), FAbs F a → l < a.nl → k < a.nl → e ∈ a.seq k →
+      (¬ ∃ a' : FA, a'.nl = a.nl ∧ FAbs (F.put l ((F.view l).pushFrontNode e)) a') ∧
+      (∀ s1, (F.view l).pushBackNode e = some s1 → ¬ ∃ a' : FA, a'.nl = a.nl ∧ FAbs (F.put l s1) a')) :=
+  ⟨fun _ _ _ _ _ h hl hk he => node_forms_linked_break h hl hk he,
+   fun _ _ _ h hl hne => init_nonempty_breaks h hl hne,
+   fun _ _ _ _ _ h hl hk he => ⟨spushFrontNode_linked_breaks h hl hk he,
+     fun _ hp => spushBackNode_linked_breaks h hl hk he hp⟩⟩
+
+/-- Non-vacuity of `c13_misuse_breaks`: a linked node exists (after one `PushBack` on list 0). -/
+example : (∃ (s : DSt) (A : Nat → List Nat), GInv s A ∧ 0 < s.nl ∧ 1 < s.nl ∧ 2 ∈ A 0) ∧
+    (∃ (F : SFam) (A : FA), FAbs F A ∧ 0 < A.nl ∧ 1 < A.nl ∧ 0 ∈ A.seq 0) := by
+  constructor
+  · obtain ⟨s1, _, g1, _, n1, _⟩ := pushBack_spec (l := 0) 7 (c13_zero_value 2) (by decide)
+    exact ⟨s1, _, g1, by rw [n1]; decide, by rw [n1]; decide, by simp [upd, DSt.zero]⟩
   · obtain ⟨F1, _, h1⟩ := fapply_refines (k := 0) (fabs_zero 2) (.pushBack 7) (by decide)
     exact ⟨F1, _, h1, by decide, by decide, by decide⟩
 
